@@ -55,6 +55,9 @@ const (
 type listItem struct {
 	Text  string
 	Level int
+	// Ordered reports whether the list this item belongs to is an <ol>; a
+	// nested list may be of the other kind than the list around it
+	Ordered bool
 }
 
 // ParsedTable represents a table extracted from HTML.
